@@ -47,7 +47,7 @@ ANCHORS = ['pfhedge.nn.functional:bs_european_delta',
            'pfhedge._utils.parse:parse_volatility']
 DECIDING = ["greek.broadcast_invariant", "greek.args_untouched", "greek.alias_invariant", "module.forward_is_delta", "greek.european", "greek.european_binary", "greek.american_binary", "greek.lookback", "autogreek.delta", "autogreek.gamma",
             "autogreek.vega", "autogreek.theta", "autogreek.gamma_from_delta"]
-REQUIRED_BRANCHES = ["t!=1", "K!=1", "put", "american_binary.reached_spot_below", "via.module", "via.functional", "alias.spot_at_running_max", "autogreek.create_graph", "greek.broadcast"]
+REQUIRED_BRANCHES = ["t!=1", "K!=1", "put", "american_binary.reached_spot_below", "via.module", "via.functional", "alias.spot_at_running_max", "autogreek.create_graph", "greek.broadcast", "tie.spot_at_running_max"]
 
 N = 24
 
@@ -198,6 +198,37 @@ def drv_bs(ctx, k, rng):
     # (float32) there, so the derivative is taken at a spot shifted by up to 6e-8 relatively - visible where gamma * S / delta is large
     K_held = float(torch.as_tensor(K))
     S_held = S * (K_held / K)
+    if path and rng.random() < 0.5:
+        # the spot sitting exactly on its running maximum: spots above it are outside the domain, so the derivative of the price is taken from below
+        # (backward differences of the module's own price at S, S-h, S-2h, S-3h; two step sizes give the estimate and its uncertainty)
+        ctx.branch("tie.spot_at_running_max")
+        mt = s.clone()
+        with torch.enable_grad():
+            if via == "module":
+                gt = {nm: getattr(mod, nm)(s, mt, tt, v).detach() for nm in ("delta", "gamma")}
+            else:
+                gt = {nm: getattr(F, f"bs_{kind}_" + nm)(s, mt, tt, v, strike=K).detach() for nm in ("delta", "gamma")}
+        for z in (s, tt, v, m):
+            z.requires_grad_(False)
+
+        def p_tie(S_):
+            if via == "module":
+                return mod.price((S_ / K).log(), mt, tt, v)
+            return F.bs_american_binary_price((S_ / K).log(), mt, tt, v) if kind == "american_binary" else F.bs_lookback_price((S_ / K).log(), mt, tt, v, strike=K)
+
+        def backward(S0, h_, order):
+            def one(hh):
+                p0, p1, p2, p3 = p_tie(S0), p_tie(S0 - hh), p_tie(S0 - 2 * hh), p_tie(S0 - 3 * hh)
+                return (3 * p0 - 4 * p1 + p2) / (2 * hh) if order == 1 else (2 * p0 - 5 * p1 + 4 * p2 - p3) / (hh * hh)
+            a_, b_ = one(h_), one(h_ / 2)
+            return (4 * b_ - a_) / 3, (b_ - a_).abs()
+
+        K_h = float(torch.as_tensor(K))
+        with torch.no_grad():
+            for nm, order, hrel, sc_, kw_ in (("delta", 1, 1e-3, scale_p / S, {}), ("gamma", 2, 2e-3, scale_p / S.square(), dict(rel=2e-5, ab=1e-7))):
+                est, unc = backward(S, hrel * S, order)
+                alt = backward(S * (K_h / K), hrel * S, order) if K_h != K else None
+                compare(ctx, mon, nm + "@tie", gt[nm], est, unc, sc_, base + (nm, "tie"), dict(pts, max_log_moneyness=mt), alt=alt, **kw_)
     # broadcasting: a volatility / maturity shared by all points (0-dim or one element) gives, point by point, what the full-shape call gives
     if rng.random() < 0.4:
         ctx.seen("greek.broadcast_invariant")
